@@ -7,16 +7,22 @@ func init() {
 		ID: "C18", Level: "exploration", Floor: 1000000,
 		Rule: "a case = one history run from a fresh tester built by the real liveness.New(): (a) EVERY history of length 1..6 (quick) / 1..7 (thorough) over " +
 			"{query(a1..a3) x host live/not-live, advance 20 min, ClearExpiredCache} for each configuration of the matrix live-only / non-live-only / both x map and LRU " +
-			"capacity 1..3 x lifetimes 30m/50m (one length less for unequal capacities), (b) seeded random histories of length 200 over up to 8 addresses with random " +
-			"configurations, (c) under -race, rounds of 8 concurrent workers (queries, ClearExpiredCache, Len) judged at the barrier. evaluations = histories (a, b) + rounds (c). " +
-			"distinct_nontrivial: (a) distinct (configuration, response shape) pairs, shape = per-step response class {first probe +/-, re-probe of a known address +/-, cache hit +/-, " +
-			"advance, clear} with addresses dropped, counted only if the history contains a cache hit or a re-probe; (b) distinct (configuration, history seed) with at least one cache hit " +
-			"and one re-probe; (c) distinct (scenario, round) with at least one cache hit and one probe",
+			"capacity 1..3 x lifetimes 40m/60m (= 2 and 3 steps, so ages land exactly on the lifetime; one length less for unequal capacities), the error accompanying the scripted verdict " +
+			"rotating through every error class; (a2) for every configuration and every ordered pair of the 12 scripted probe outcomes (verdict x error class: nil, sentinel, wrapped sentinel, " +
+			"the other verdict's sentinel, text-rebuilt, context.DeadlineExceeded, net.OpError), a1 measured with the first outcome followed by every continuation of length 1..4 / 1..5 over " +
+			"{query(a1), query(a2), advance, clear}; (a3) boundary: 128 / 512 entries per (configuration, age) queried again at every age in {0.5, 0.90 .. 0.999, L-1ns, L, L+1ns, 1.001 .. 1.05, 1.06, 1.08, 1.10, 1.5} x " +
+			"lifetime for lifetimes 2s, 90s, 40m, 2h, 26h, map and LRU, live-only / non-live-only / both; (b) seeded random histories of length 200 over up to 8 addresses with random " +
+			"configurations, random outcomes and advances aimed at f x lifetime of a cached verdict; (c) under -race, rounds of 8 concurrent workers (queries, ClearExpiredCache, Len) judged at the barrier. " +
+			"evaluations = histories (a, a2, b) + (configuration, age) scenarios (a3) + rounds (c). " +
+			"distinct_nontrivial: (a, a2) distinct (configuration, [verdicts of the outcome pair,] response shape) tuples, shape = per-step response class {first probe +/-, re-probe of a known address +/-, cache hit +/-, " +
+			"advance, clear} with addresses dropped, counted only if the history contains a cache hit or a re-probe; (a3) distinct (configuration, age) with a hit or a re-probe; (b) distinct (configuration, history seed) " +
+			"with at least one cache hit and one re-probe; (c) distinct (scenario, round) with at least one cache hit and one probe",
 		Assumptions: []string{
-			"harness time is simulated by replacing every cached entry with one whose cachedTime is 20 min (x k) older; reachable ages keep 10 min of distance from the lifetimes 30m/50m, " +
-				"a history that takes more than 5 min of real time is not judged",
+			"harness time is simulated by moving the cachedTime of every cached entry back, in place, while nothing else runs; the age the code computes is harness age + real elapsed time >= harness age, " +
+				"so 'harness age >= configured lifetime => not answered from the cache' is exact and load cannot falsify it; entries dropped before the configured lifetime are legal and only counted",
+			"the measured verdict is the bool the probe returned, whatever error value came with it",
 			"the oracle is one-directional on hits: a cache that probes more often than necessary is not charged; which entry a bounded cache evicts is not prescribed " +
-				"(the implementation's own LRU key set is consulted to know what it evicted)",
+				"(the implementation's own LRU key set is consulted to know what it evicted; the element pointers of the verdict maps are consulted to know which measurement produced an entry)",
 			"the cache is keyed by address only (a verdict measured on one port is served for another port of the same address); this is taken as the design, not charged",
 			"concurrent phase: the order 'probe entered before the cached answer returned' is taken from the monotonic clock; races are those the race detector sees on the executed schedules",
 		},
